@@ -104,8 +104,13 @@ fn reset(env: &Env) {
 pub fn check_case(env: &Env, c: &Case) -> Option<(&'static str, String)> {
     reset(env);
     let t = match &c.path {
-        None => Torrent::new(&c.name, 4, &[("ignored", 3)], true),
-        Some(p) => Torrent::new(&c.name, 4, &[(p.as_str(), 2), ("ok", 1)], false),
+        None => Torrent::try_new(&c.name, 4, &[("ignored", 3)], true),
+        Some(p) => Torrent::try_new(&c.name, 4, &[(p.as_str(), 2), ("ok", 1)], false),
+    };
+    let t = match t {
+        Ok(t) => t,
+        Err(e) if e.starts_with("PANIC") => return Some(("metainfo-panic", format!("{:?}: {}", c, e))),
+        Err(_) => return None, // refused when the .torrent is read: nothing is extracted at all
     };
     t.store_piece(&env.cwd, 0);
     let before = listing(&env.root);
